@@ -90,7 +90,7 @@ Inductive case :=
 Definition effective (w : world) (tn ohf : bool) (d : fs) : fs * bool :=
   let d1 := rs w d in
   match lookup d1 magefilesDir with
-  | Some (Dir sub) => if ohf then (set magefilesDir (Dir (rs w sub)) d1, tn) else (rs w sub, true)
+  | Some (Dir sub) => if ohf then (d1, tn) else (rs w sub, true)
   | _ => (d1, tn)
   end.
 
